@@ -4,15 +4,21 @@ use crate::util::*;
 use crate::{Opts, Outcome};
 use std::collections::HashMap;
 
-fn run_cov(recs: &[Vec<u8>], k: usize, bs: usize, bc: usize, norm: bool, threads: usize, mem: f64) -> Result<String, String> {
+fn run_cov(recs: &[Vec<u8>], k: usize, bs: usize, bc: usize, norm: bool, threads: usize, mem: f64) -> Result<String, String> { run_cov_alt(recs, None, k, bs, bc, norm, threads, mem) }
+
+fn run_cov_alt(recs: &[Vec<u8>], alt: Option<&[Vec<u8>]>, k: usize, bs: usize, bc: usize, norm: bool, threads: usize, mem: f64) -> Result<String, String> {
     let sc = Scratch::new("cov");
     let inp = sc.path("in.fa");
     let outd = sc.path("out");
     std::fs::create_dir_all(&outd).unwrap();
     write_fasta(&inp, recs);
+    let altp = sc.path("alt.fa");
+    let has_alt = alt.is_some();
+    if let Some(a) = alt { write_fasta(&altp, a); }
     let (i2, o2) = (inp.clone(), outd.clone());
     let r = guarded(move || {
         let mut c = coverage::CovComputer::new(i2, o2, k, bs, bc);
+        if has_alt { c.set_kmer_path(altp); }
         c.set_norm(norm);
         c.set_threads(threads);
         c.set_max_memory(mem);
@@ -96,6 +102,35 @@ pub fn c08(o: &Opts) -> Outcome {
         for threads in [1usize, 4] {
             cases += 1;
             if let Some(w) = c08_batch(&same, 5, 2, 8, false, threads, 1e-7) { return Outcome { cases, witness: Some(w) }; }
+        }
+    }
+    // a separate counting input that lacks some of the records' k-mers: absent k-mers fall in bin 0 and still count as windows
+    {
+        let recs = vec![b"ACGTACGTACGGTTTTTTTTTT".to_vec(), b"GGGGGGGGGGGGACGTACG".to_vec()];
+        let alt = vec![b"TTTTTTTTTTTTTTTTTTTTTTTTT".to_vec(), b"ACGTACG".to_vec()];
+        for norm in [false, true] {
+            cases += 1;
+            let out = run_cov_alt(&recs, Some(&alt), 7, 2, 4, norm, 1, 6.0);
+            let mut counts: HashMap<u64, u64> = HashMap::new();
+            for r in &alt { for (_, f, rv) in kmers_spec(r, 7) { *counts.entry(f.min(rv)).or_insert(0) += 1; } }
+            let mut why = String::new();
+            match out {
+                Err(e) => why = e,
+                Ok(text) => {
+                    let lines: Vec<&str> = text.split('\n').collect();
+                    for (i, r) in recs.iter().enumerate() {
+                        let mut want = vec![0u64; 4]; let mut total = 0u64;
+                        for (_, f, rv) in kmers_spec(r, 7) { let c = *counts.get(&f.min(rv)).unwrap_or(&0); want[((c as usize) / 2).min(3)] += 1; total += 1; }
+                        let parts: Vec<&str> = lines.get(i).unwrap_or(&"").split(' ').collect();
+                        for b in 0..4 {
+                            let v: f64 = parts.get(b).and_then(|x| x.parse().ok()).unwrap_or(f64::NAN);
+                            let e = if norm { want[b] as f64 / total.max(1) as f64 } else { want[b] as f64 };
+                            if !((v - e).abs() <= 5.1e-7) { why = format!("separate counting input: row {} bin {}: got {}, expected {}", i, b, v, e); }
+                        }
+                    }
+                }
+            }
+            if !why.is_empty() { return Outcome { cases, witness: Some(vec![("records".into(), "ACGTACGTACGGTTTTTTTTTT|GGGGGGGGGGGGACGTACG".into()), ("alt".into(), "TTTTTTTTTTTTTTTTTTTTTTTTT|ACGTACG".into()), ("k".into(), "7".into()), ("why".into(), why)]) }; }
         }
     }
     let rounds = if o.thorough { 60 } else { 14 };
